@@ -1,11 +1,188 @@
 /-
-Props/C07.lean — property theorems for C07 (values handed out through an accumulating buffer).
+Props/C07.lean — property theorems for C07 (values handed out through an accumulating buffer stay intact
+and never overlap).
+
+Model: Lib/Buffer.lean (arena of byte arrays, windows, `bufStep`); acceptance check applied to real
+histories: `bufHistoryViolation` (Spec/BufSpec.lean), run by the driver on the observations of every `BH`
+record. `tight` = `{ openCap := false }` is the repaired configuration (values handed out as
+`b[off:len:len]`); the current tree is `{ openCap := true }` (`b[off:]`).
+
+* `bufInv_init`, `bufInv_step`, `bufInv_history`: the invariant `BufInv` (Proofs/C07.lean: every window
+  inside its array; the windows of distinct live handles — byte slices and strings, SPARE CAPACITY
+  INCLUDED — pairwise disjoint, and disjoint from the buffer's free region) holds initially and is
+  preserved by every operation and every growth choice of the runtime, hence along every history.
+* `other_handles_untouched`, `value_kept_until_reset`: an operation not aimed at a live handle leaves
+  its window and bytes alone; so a value keeps its content for as long as the buffer is not reset and
+  nothing is aimed at that value, however much is accumulated, overwritten or grown elsewhere.
+* `history_accepted`: the executable acceptance check accepts the observations of every history of the
+  repaired model.
+* `history_refines_independent_values`: full functional statement — along every history the repaired
+  buffer shows every live value exactly as the reference semantics `absStep`, in which every handed-out
+  value is a value of its own (hand-out = copy of the input; an operation changes its target only).
+* Hypothesis `runLive` / `opLive` (Bool, Spec/BufSpec.lean): the client does not write, append or Set
+  *through a value handed out before the last Reset*. It is necessary (`stale_write_breaks`): after a
+  Reset the buffer legitimately reuses those bytes.
+* `open_mode_overlaps`, `open_mode_set_overlaps`: the current tree violates the property
+  (known finding `buffer-open-capacity`).
 -/
-import InspectorModel.Lib.Buffer
+import InspectorModel.Proofs.C07
 namespace Inspector.C07
 
 /-- Reset forgets every handed-out value and keeps the array. -/
 theorem reset_keeps_array (cfg : BufCfg) (s : BufSt) (nc : Nat) :
     (bufStep cfg s .reset nc).arrays = s.arrays := rfl
+
+/-! ### 1. The invariant -/
+
+/-- A fresh buffer of any capacity satisfies the invariant. -/
+theorem bufInv_init (c : Nat) : BufInv (initBuf c) := C07.bufInv_init' c
+
+/-- Every operation of the repaired model preserves the invariant, whatever capacity `newCap` the runtime
+picks when an append has to grow. -/
+theorem bufInv_step (s : BufSt) (inv : BufInv s) (op : BufOp) (newCap : Nat) :
+    BufInv (bufStep tight s op newCap) := C07.bufInv_step' inv op newCap
+
+/-- … hence every history (a list of operations, each with the runtime's growth choice) does. -/
+theorem bufInv_history (c : Nat) (steps : List (BufOp × Nat)) :
+    BufInv (steps.foldl (fun s st => bufStep tight s st.1 st.2) (initBuf c)) := by
+  rw [← bufRun_eq_foldl]; exact bufInv_run (C07.bufInv_init' c) steps
+
+/-- The invariant has an executable form (`bufInvB`, Proofs/C07.lean) for concrete states. -/
+theorem bufInv_of_check (s : BufSt) (h : bufInvB s = true) : BufInv s := bufInvB_sound h
+
+/-- Distinct live handed-out values never overlap, spare capacity included (strings too, so no range a
+client can write reaches a string). -/
+theorem handles_never_overlap (c : Nat) (steps : List (BufOp × Nat)) (i j : Nat) (hi hj : Handle) (hne : i ≠ j)
+    (h1 : (bufRun tight (initBuf c) steps).handles[i]? = some hi)
+    (h2 : (bufRun tight (initBuf c) steps).handles[j]? = some hj)
+    (s1 : hi.stale = false) (s2 : hj.stale = false) :
+    hi.win.arr ≠ hj.win.arr ∨ hi.win.off + hi.win.cap ≤ hj.win.off ∨ hj.win.off + hj.win.cap ≤ hi.win.off :=
+  (bufInv_run (C07.bufInv_init' c) steps).disj i j hi hj hne h1 h2 s1 s2
+
+/-- No live handed-out value reaches into the bytes the buffer will write next (its free region). -/
+theorem handles_avoid_free_region (c : Nat) (steps : List (BufOp × Nat)) (i : Nat) (hd : Handle) (b : Win)
+    (h1 : (bufRun tight (initBuf c) steps).handles[i]? = some hd) (s1 : hd.stale = false)
+    (hb : (bufRun tight (initBuf c) steps).buf = some b) :
+    hd.win.arr ≠ b.arr ∨ hd.win.off + hd.win.cap ≤ b.off + b.len ∨ b.off + b.cap ≤ hd.win.off :=
+  (bufInv_run (C07.bufInv_init' c) steps).free i hd b h1 s1 hb
+
+/-! ### 2. Stability -/
+
+/-- One step: an operation that is not aimed at the live handle `j` leaves it exactly as it was — same
+window, same bytes (a Reset only marks it stale). Operations aimed at a handle can change that handle only. -/
+theorem other_handles_untouched (s : BufSt) (inv : BufInv s) (op : BufOp) (newCap : Nat)
+    (hlive : opLive s op = true)
+    (j : Nat) (hd : Handle) (hj : s.handles[j]? = some hd) (hst : hd.stale = false)
+    (hne : op.target ≠ some j) :
+    (bufStep tight s op newCap).handles[j]? = some (if op.isReset then { hd with stale := true } else hd) ∧
+    readWin (bufStep tight s op newCap).arrays hd.win = readWin s.arrays hd.win :=
+  stable_step inv op newCap hlive j hd hj hst hne
+
+/-- Histories: a handed-out value keeps its window and its content for as long as the buffer is not reset
+and no operation is aimed at it — however much is accumulated afterwards, and whatever is overwritten,
+appended to or Set on other handed-out values. -/
+theorem value_kept_until_reset (c : Nat) (before after : List (BufOp × Nat))
+    (hlive : runLive tight (bufRun tight (initBuf c) before) after = true)
+    (j : Nat) (hd : Handle) (hj : (bufRun tight (initBuf c) before).handles[j]? = some hd)
+    (hst : hd.stale = false)
+    (hno : ∀ st ∈ after, st.1.isReset = false ∧ st.1.target ≠ some j) :
+    (bufRun tight (initBuf c) (before ++ after)).handles[j]? = some hd ∧
+    readWin (bufRun tight (initBuf c) (before ++ after)).arrays hd.win =
+      readWin (bufRun tight (initBuf c) before).arrays hd.win := by
+  rw [bufRun_append]
+  exact stable_run (bufInv_run (C07.bufInv_init' c) before) after hlive j hd hj hst hno
+
+/-! ### 3. The executable acceptance check -/
+
+/-- C07 for the repaired buffer: for every initial capacity, every history and every growth choice of
+the runtime, the acceptance check the driver applies to real histories accepts the model's observations. -/
+theorem history_accepted (c : Nat) (steps : List (BufOp × Nat))
+    (hlive : runLive tight (initBuf c) steps = true) :
+    bufHistoryViolation (steps.map (·.1)) (bufRunObs tight (initBuf c) steps) = none := by
+  have h := go_none (C07.bufInv_init' c) steps hlive 0
+  have h0 : bufObs (initBuf c) = [] := by
+    unfold initBuf bufObs; by_cases hc : (c == 0) = true <;> simp [hc]
+  rw [h0] at h
+  exact h
+
+/-! ### 3b. Full strength: the repaired buffer implements independent values -/
+
+/-- Refinement. `absStep` (Spec/BufSpec.lean) is the reference semantics in which every handed-out value
+is a Go value of its own: Bufferize/BufferizeString/AssignBuf hand out a copy of their input, a client
+write/append/Set changes the value it goes through and nothing else, Reset only ends the values' life.
+Along every history (client operations through live values), for every initial capacity and every growth
+choice of the runtime, each live value read through its window in the arena is exactly the reference
+value (`Refines`, Proofs/C07.lean: same count, same kind, same liveness, same bytes). -/
+theorem history_refines_independent_values (c : Nat) (steps : List (BufOp × Nat))
+    (hlive : runLive tight (initBuf c) steps = true) :
+    Refines (bufRun tight (initBuf c) steps) (absRun [] steps) :=
+  refines_run (C07.bufInv_init' c) (refines_init c) steps hlive
+
+/-- … in terms of what the harness observes: the contents of the watched values are the reference contents. -/
+theorem observed_contents_are_reference (c : Nat) (steps : List (BufOp × Nat))
+    (hlive : runLive tight (initBuf c) steps = true) :
+    (bufObs (bufRun tight (initBuf c) steps)).map (fun o => o.map (·.2)) =
+      (absRun [] steps).map (fun v => if v.stale then none else some v.content) :=
+  refines_obs (history_refines_independent_values c steps hlive)
+
+/-- One step of the same, from any state satisfying the invariant. -/
+theorem step_refines_independent_values (s : BufSt) (a : List AVal) (inv : BufInv s) (R : Refines s a)
+    (op : BufOp) (newCap : Nat) (hlive : opLive s op = true) :
+    Refines (bufStep tight s op newCap) (absStep a op) := refines_step inv R op newCap hlive
+
+/-! ### 4. The current tree -/
+
+/-- Known finding `buffer-open-capacity`: in the current configuration (`b[off:]`) appending to one
+handed-out slice overwrites the next one; the acceptance check objects at step 2, and accepts the same
+history in the repaired configuration. -/
+theorem open_mode_overlaps :
+    let steps : List (BufOp × Nat) := [(.bufferize [1, 2], 0), (.bufferize [3, 4], 0), (.appendTo 0 [9], 0)]
+    handleContents (bufRun { openCap := true } (initBuf 8) (steps.take 2)) = [[1, 2], [3, 4]] ∧
+    handleContents (bufRun { openCap := true } (initBuf 8) steps) = [[1, 2, 9], [9, 4]] ∧
+    runLive { openCap := true } (initBuf 8) steps = true ∧
+    bufHistoryViolation (steps.map (·.1)) (bufRunObs { openCap := true } (initBuf 8) steps) = some 2 ∧
+    handleContents (bufRun tight (initBuf 8) steps) = [[1, 2, 9], [3, 4]] ∧
+    bufHistoryViolation (steps.map (·.1)) (bufRunObs tight (initBuf 8) steps) = none := by decide
+
+/-- Same finding through an unbuffered Set on a handed-out field (`ToBytes(p[:0], …)` reuses the spare
+capacity): the neighbouring value is overwritten. -/
+theorem open_mode_set_overlaps :
+    let steps : List (BufOp × Nat) := [(.bufferize [1, 2], 0), (.bufferizeStr [3, 4], 0), (.setNoBuf 0 [7, 7, 7], 0)]
+    handleContents (bufRun { openCap := true } (initBuf 8) steps) = [[7, 7, 7], [7, 4]] ∧
+    bufHistoryViolation (steps.map (·.1)) (bufRunObs { openCap := true } (initBuf 8) steps) = some 2 ∧
+    handleContents (bufRun tight (initBuf 8) steps) = [[7, 7, 7], [3, 4]] := by decide
+
+/-- The hypothesis `runLive` is needed: writing through a value handed out before a Reset reaches the
+bytes the buffer has legitimately reused (client misuse, not a defect of the buffer). -/
+theorem stale_write_breaks :
+    let steps : List (BufOp × Nat) := [(.bufferize [1, 2], 0), (.reset, 0), (.bufferize [3, 4], 0), (.overwrite 0 0 9, 0)]
+    runLive tight (initBuf 8) steps = false ∧
+    handleContents (bufRun tight (initBuf 8) steps) = [[9, 4], [9, 4]] ∧
+    bufHistoryViolation (steps.map (·.1)) (bufRunObs tight (initBuf 8) steps) = some 3 := by decide
+
+section NonVacuity
+/-- A history over a buffer of capacity 4 that grows twice, is reset, re-assigns a stale variable, and has
+client writes, appends and unbuffered Sets on live values. -/
+def exSteps : List (BufOp × Nat) :=
+  [(.bufferize [1, 2], 0), (.bufferizeStr [3, 4, 5], 16), (.assignBuf [6] false, 0), (.appendTo 0 [7], 8),
+   (.overwrite 2 0 8, 0), (.setNoBuf 0 [9, 9, 9, 9, 9], 12), (.assignBufTo 2 [10, 11], 0)]
+def exAfterReset : List (BufOp × Nat) :=
+  [(.reset, 0), (.assignBufTo 1 [12], 0), (.bufferize [13, 14], 0), (.overwrite 3 0 15, 0)]
+
+example : runLive tight (initBuf 4) (exSteps ++ exAfterReset) = true := by decide
+example : bufInvB (bufRun tight (initBuf 4) (exSteps ++ exAfterReset)) = true := by decide
+example : handleContents (bufRun tight (initBuf 4) exSteps) = [[9, 9, 9, 9, 9], [3, 4, 5], [10, 11]] := by decide
+example : bufObs (bufRun tight (initBuf 4) (exSteps ++ exAfterReset)) = [none, some (1, [12]), none, some (2, [15, 14])] := by decide
+/-- The string handed out second survives everything `exSteps` does after it (hypotheses of
+`value_kept_until_reset` for `before = exSteps.take 2`, `after = exSteps.drop 2`, `j = 1`). -/
+example : runLive tight (bufRun tight (initBuf 4) (exSteps.take 2)) (exSteps.drop 2) = true ∧
+    (bufRun tight (initBuf 4) (exSteps.take 2)).handles[1]? = some { win := { arr := 1, off := 2, len := 3, cap := 3 }, isStr := true } ∧
+    (exSteps.drop 2).all (fun st => !st.1.isReset && !(st.1.target == some 1)) = true := by decide
+example : (absRun [] (exSteps ++ exAfterReset)).map (fun v => (v.content, v.isStr, v.stale)) =
+    [([9, 9, 9, 9, 9], false, true), ([12], true, false), ([10, 11], false, true), ([15, 14], false, false)] := by decide
+/-- The nil buffer (`NewByteBuffer(0)`) and the empty value. -/
+example : handleContents (bufRun tight (initBuf 0) [(.assignBuf [] true, 0), (.bufferize [], 0), (.bufferize [1], 0), (.appendTo 1 [2], 0)])
+    = [[], [2], [1]] := by decide
+end NonVacuity
 
 end Inspector.C07
